@@ -23,6 +23,12 @@ def run_crash(c, binp, name="crash"):
     g = _txncfg.gen(c, "x", MaxTxns=3, MaxOps=8, Keys=8, Slots=[2, 4], Rollbacks=False)
     cfg = _txncfg.cfg(c, name, c.pick(2, 8), g, max_fault=c.pick(10, 0))
     traces = txnlib.run_driver(c, binp, "crash", cfg, timeout=c.pick(900, 3400))
+    if not traces:
+        # the seeded programs happened to contain no committing writer to crash: draw more of them
+        cfg = _txncfg.cfg(c, name + "b", c.pick(10, 24), g, max_fault=c.pick(10, 0))
+        traces = txnlib.run_driver(c, binp, "crash", cfg, timeout=c.pick(900, 3400))
+    if not traces:
+        raise vlib.InfraError("the crash driver produced no history")
     for n, h, evs in traces:
         for e in evs:
             if e.get("ev") == "HarnessError":
